@@ -6,6 +6,8 @@ ALL = ["C%02d" % i for i in range(1, 21)]
 BASE_OFF = "cd /repo && env -u ASCMHL_VERIF /venv/bin/python -m pytest -ra -q -p no:cacheprovider --timeout=900 --continue-on-collection-errors"
 T = "in-process CliRunner on tmpfs as accelerator, every alarm re-run in one fresh subprocess per command; CPython, hashlib, xxhash, lxml/libxml2 trusted; bounds and alphabets as listed in the evidence file"
 CHECKS = {
+ "C17": ("E1", "model_checking", "bounded-exhaustive exploration: sealed base x every rename assignment x command sequences on the real code",
+         "For a sealed tree every assignment of each file to {stay, rename, move, move+rename, (move into a new folder)} is applied, with one/two-generation and nested histories, equal and different formats, an unrelated new file, and chained renames over 2-3 generations; plain create, create -dr, the follow-up verify/diff/create and verify after altering each renamed file are executed and judged.", "4 C17"),
  "C12": ("E1", "model_checking", "explicit-state BFS of the real file-system state graph with audit-event observation, own pattern matcher + reference directory hashes as oracle",
          "Every sequence up to the bound of creates with every pattern set of the alphabet {x.tmp, *.tmp, sub/, sub} (via -i, repeated -i, -ii), create -sf of folders, creates at a nested root, edits of ignored/matching files and verify / verify -dh / diff with and without extra patterns is executed; ignored paths must be in no new record, never opened, in no directory hash and never reported, and pattern lists may only grow and must propagate to nested generations.", "4 C12"),
  "C14": ("E1", "model_checking", "command matrix x state matrix plus whole BFS explorations on the real code, full metadata snapshot + audit-event oracle",
